@@ -81,7 +81,8 @@ def workload(rng, tier, driver):
     return corr, fam
 
 
-SHARES_ALL = [(k, d, m) for m in (2, 3, 4) for k in range(2, m + 1) for d in range(1, m + 1)]
+# valid: 1 <= data shares <= key shares <= max shares (ascon-masked-config.h rejects anything else at compile time)
+SHARES_ALL = [(k, d, m) for m in (2, 3, 4) for k in range(2, m + 1) for d in range(1, k + 1)]
 BACKENDS = ["default", "c64", "c32", "directxor", "generic"]
 
 
@@ -91,7 +92,7 @@ def configs_for(tier, rng):
     out = []
     sh = list(SHARES_ALL)
     rng.shuffle(sh)
-    for i, s in enumerate(sh):          # every valid share triple on at least one backend, every backend with >= 4 triples
+    for i, s in enumerate(sh):          # every valid share triple on at least one backend, every backend with >= 3 triples
         out.append((BACKENDS[i % 5], s))
     out += [(b, None) for b in BACKENDS]
     out += [("checkar", None), ("checkar", (2, 1, 2)), ("checkar", (3, 3, 3)), ("checkar", (4, 1, 4)), ("checkar", (2, 2, 4))]
@@ -173,6 +174,6 @@ def run(res, tier, seed, replay=None):
     })
     res.assumptions += ["the C kernels are proved per backend (C08) and per share count (C10); the mode-level fast-path macros of ascon-util-snp.h and the share-count dispatch macros "
                         "are tied by this differential run, not by a theorem",
-                        "thorough tier covers each of the 20 valid (key,data,max) share triples on one backend and every backend with at least four triples, not the full 5 x 20 product"]
+                        "thorough tier covers each of the 16 valid (key,data,max) share triples (data <= key <= max) on one backend and every backend with at least three triples, not the full 5 x 16 product"]
     res.cov["wall_total"] = round(time.time() - t0, 1)
     return "proof"
